@@ -41,6 +41,7 @@ type Solver struct {
 	timeoutMS  int
 	curTimeout int
 	nra        bool // float_mode=real: use the NRA portfolio in Check
+	frames     [][]*Term // assertion stack (frame 0 = base), for replay after a watchdog restart
 	// stats
 	Queries  int
 	NSat     int
@@ -89,6 +90,8 @@ func (s *Solver) start() {
 	s.sendOptions()
 }
 
+func (s *Solver) resetFrames() { s.frames = [][]*Term{nil} }
+
 func (s *Solver) sendOptions() {
 	if strings.Contains(s.bin, "cvc5") {
 		s.send("(set-option :global-declarations true)")
@@ -105,6 +108,7 @@ func (s *Solver) sendOptions() {
 
 // Reset forgets all declarations and assertions (new term table).
 func (s *Solver) Reset() {
+	s.frames = [][]*Term{nil}
 	s.send("(reset)")
 	s.defined = map[int]bool{}
 	s.depth = 0
@@ -123,6 +127,7 @@ func (s *Solver) Close() {
 func (s *Solver) Restart() {
 	s.Close()
 	s.restarts++
+	s.frames = [][]*Term{nil}
 	s.start()
 }
 
@@ -182,8 +187,32 @@ func (s *Solver) define(t *Term) {
 	}
 }
 
-func (s *Solver) Push() { s.send("(push)"); s.depth++ }
-func (s *Solver) Pop()  { s.send("(pop)"); s.depth-- }
+func (s *Solver) Push() {
+	s.send("(push)")
+	s.depth++
+	s.frames = append(s.frames, nil)
+}
+func (s *Solver) Pop() {
+	s.send("(pop)")
+	s.depth--
+	if len(s.frames) > 1 {
+		s.frames = s.frames[:len(s.frames)-1]
+	}
+}
+
+// replayFrames restores the assertion stack in a freshly started solver.
+func (s *Solver) replayFrames() {
+	frames := s.frames
+	s.frames = [][]*Term{nil}
+	for i, fr := range frames {
+		if i > 0 {
+			s.Push()
+		}
+		for _, t := range fr {
+			s.Assert(t)
+		}
+	}
+}
 
 func (s *Solver) PopAll() {
 	for s.depth > 0 {
@@ -197,6 +226,10 @@ func (s *Solver) Assert(t *Term) {
 	}
 	s.define(t)
 	s.send("(assert " + t.ref() + ")")
+	if len(s.frames) == 0 {
+		s.frames = [][]*Term{nil}
+	}
+	s.frames[len(s.frames)-1] = append(s.frames[len(s.frames)-1], t)
 }
 
 // Check runs (check-sat). Any "(error" output makes the result Unknown.
@@ -231,8 +264,14 @@ func (s *Solver) Check() SatResult {
 	return s.checkOnce("(check-sat)", s.timeoutMS, true)
 }
 
-func (s *Solver) checkOnce(cmd string, timeoutMS int, final bool) SatResult {
+func (s *Solver) checkOnce(cmd string, timeoutMS int, final bool) (result SatResult) {
 	t0 := time.Now()
+	killed := false
+	defer func() {
+		if killed {
+			result = Unknown
+		}
+	}()
 	if timeoutMS != s.curTimeout && !strings.Contains(s.bin, "cvc5") {
 		s.send(fmt.Sprintf("(set-option :timeout %d)", timeoutMS))
 		s.curTimeout = timeoutMS
@@ -253,13 +292,18 @@ func (s *Solver) checkOnce(cmd string, timeoutMS int, final bool) SatResult {
 	defer func() {
 		if r := recover(); r != nil {
 			if timedOut {
-				s.Queries++
-				s.NUnknown++
 				s.Time += time.Since(t0)
 				s.cmd.Wait()
 				s.cmd = nil
 				s.restarts++
 				s.start()
+				s.replayFrames()
+				if !final {
+					killed = true
+					return
+				}
+				s.Queries++
+				s.NUnknown++
 				panic(pathEnd{status: StUnknown, msg: "solver killed after timeout"})
 			}
 			panic(r)
